@@ -530,6 +530,8 @@ class IsotxsLibrary(_XSLibrary):
         # merging meta data may raise an exception before knowing anything about the contained nuclides
         # if it raises an exception, nothing has been modified in two objects
         isotxsMeta, pmatrxMeta, gamisoMeta = self._mergeMetadata(other)
+        # scatter weights built so far do not cover the nuclides that arrive now
+        self.resetScatterWeights()
         self._mergeNuclides(other)
         # only vampire the __dict__ if successful
         other.__dict__ = {}
